@@ -60,6 +60,13 @@ def to_spec(o):
     t = type(o)
     if o is None:
         return {"t": "none"}
+    if isinstance(o, enum.Enum):
+        # an Enum member first — also when it is an int/str/float/bytes at the same time (IntEnum,
+        # IntFlag, StrEnum, (str, Enum), ...): repr_object tests isinstance(obj, Enum) before it falls
+        # back to literal_value, and the model's VEnum case mirrors exactly that order
+        if o.name is None or t.__members__.get(o.name) is not o:
+            raise Undescribable("flag combination without a member name")
+        return {"t": "enum", "c": cref(t), "m": o.name}
     if t is bool:
         return {"t": "bool", "v": o}
     if t is int:
@@ -103,10 +110,6 @@ def to_spec(o):
         return {"t": "dur", "v": cps(o.data)}
     if t is XmlPeriod:
         return {"t": "period", "v": cps(o.data)}
-    if isinstance(o, enum.Enum):
-        if t.__str__ is not enum.Enum.__str__:
-            raise Undescribable("enum with a non-default __str__ (IntEnum/StrEnum/...)")
-        return {"t": "enum", "c": cref(t), "m": o.name}
     if t is list:
         return {"t": "list", "v": [to_spec(x) for x in o]}
     if t is tuple:
